@@ -193,6 +193,16 @@ def _recovery_actions(w: Any, h: Any) -> list[str]:
     out = []
     for c in w.crashes:
         mid = ctx_msgid(c.get("ctx") or "")
+        if not mid:
+            # the crash hit between the poll (lock) commit and the handler: the in-flight message is the row locked last
+            # before the crash that was still in the queue
+            limit = int(c["commit"]) - (1 if c.get("when") == "before" else 0)
+            hi = max((cr.hi for cr in h.commits if cr.n <= limit), default=0)
+            deleted = {r["row_id"] for r in h.audit if r["kind"] == "q_del" and r["seq"] <= hi}
+            locks = [r for r in h.audit if r["kind"] == "q_lock" and r["seq"] <= hi and r["row_id"] not in deleted
+                     and (r["extra"] or {}).get("a_new") != (r["extra"] or {}).get("a_old")]
+            if locks:
+                mid = locks[-1]["row_id"]
         p = payload.get(mid, {})
         sid, tid = p.get("stage_id"), p.get("task_id")
         acts = set()
